@@ -109,6 +109,9 @@ EXTRA = {
     "fnptr_declarator": lambda k: "int " + "( * " * k + "f " + ") ( void ) " * k + ";",
     "param_nest": lambda k: "void f ( " + "int ( * g ) ( " * k + "int " + ") " * k + ") ;",
     "struct_nest": lambda k: "struct S { " * k + "int a ; " + "} m ; " * k,
+    "repeat_funcdef_hiding_param": lambda k: "typedef int T ; " + "void f ( int T ) { T = 1 ; } " * k,
+    "repeat_block_hiding_local": lambda k: "typedef int T ; void f ( void ) { " + "{ int T ; T = 1 ; } " * k + "}",
+    "repeat_retypedef": lambda k: "typedef int T ; void f ( void ) { " + "{ typedef char T ; T c ; } " * k + "}",
     "kr_params": lambda k: "int f ( " + "a , " * k + "b ) " + "int a ; " * 1 + "int b ; { }",
 }
 
@@ -143,6 +146,37 @@ def flat(name, idx, k):
     tmpl, sep, items = LISTS[name]
     seq = [items[idx[j % len(idx)] - 1] for j in range(k * len(idx))]
     return "typedef int T ; " + tmpl % sep.join(seq)
+
+
+def cost_lines(src):
+    """Deterministic step count: executed lines inside pycparser while parsing src (a loop that calls nothing does
+    not show in call events)."""
+    from pycparser import c_parser
+    cnt = [0]
+
+    def local(frame, ev, arg):
+        if ev == "line":
+            cnt[0] += 1
+        return local
+
+    def tracer(frame, ev, arg):
+        if "pycparser" in frame.f_code.co_filename and not frame.f_code.co_filename.endswith("_verif.py"):
+            return local
+        return None
+
+    p = c_parser.CParser()
+    sys.settrace(tracer)
+    try:
+        try:
+            p.parse(src, "f.c")
+            ok = "ok"
+        except RecursionError:
+            ok = "RecursionError"
+        except Exception as e:  # noqa
+            ok = type(e).__name__ + ": " + str(e)[:60]
+    finally:
+        sys.settrace(None)
+    return cnt[0], ok
 
 
 def cost(src):
@@ -188,16 +222,18 @@ def measure(args):
     """(name, sizes, kind, payload) -> (name, [(k, cost, ok)], c0)"""
     name, sizes, kind, payload = args
     out = [None]
+    lines = name.startswith("lines:")
+    costf = cost_lines if lines else cost
 
     def go():
         res = []
         for k in sizes:
             src = source(kind, payload, k)
-            c, ok = cost(src)
+            c, ok = costf(src)
             res.append((k, c, ok))
             if c > 1_200_000:
                 break
-        out[0] = (name, res, cost(source(kind, payload, 0) if kind != "flat" else "typedef int T ;")[0])
+        out[0] = (name, res, costf(source(kind, payload, 0) if kind != "flat" else "typedef int T ;")[0])
 
     sys.setrecursionlimit(200000)
     threading.stack_size(512 * 1024 * 1024)
@@ -334,6 +370,10 @@ def run(tier):
     fsizes = [24, 48, 96] if tier == "quick" else [32, 64, 128]
     jobs += [("%s[%s]" % (f["list"], " | ".join(LISTS[f["list"]][2][i - 1] for i in f["items"])), fsizes, "flat", (f["list"], f["items"]))
              for f in singles + mixes]
+    # the same repetition / flat families measured in executed lines
+    jobs += [("lines:" + n, esizes, "extra", n) for n in sorted(EXTRA)]
+    jobs += [("lines:%s[%s]" % (f["list"], " | ".join(LISTS[f["list"]][2][i - 1] for i in f["items"])), fsizes, "flat", (f["list"], f["items"]))
+             for f in singles]
     ctx.cov["rule"] = ("families = simple cycles of the pump table of Families.tla (nesting and repetition constructs and their "
                        "nestings), the flat lists of Families.tla (every list construct x every item spelling, and alternations of two) plus %d repetition/declarator families; each measured at doubling sizes by counting Python call "
                        "events inside pycparser; a case is one (family, size)" % len(EXTRA))
